@@ -352,9 +352,35 @@ where T: Integer, for<'x> &'x T: IntOps<T> {
 impl<T> Ord for Ratio<T>
 where T: Integer, for<'x> &'x T: IntOps<T> {
     fn cmp(&self, other: &Self) -> cmp::Ordering {
-        let l = self.to_f64();
-        let r = other.to_f64();
-        l.total_cmp(&r)
+        use cmp::Ordering::*;
+
+        // exact comparison without overflow (denominators are positive):
+        // compare the integer parts, then the reciprocals of the fractional parts.
+        fn div_mod_floor<T>(a: &T, b: &T) -> (T, T)
+        where T: Integer, for<'x> &'x T: IntOps<T> {
+            let (q, r) = (a / b, a % b);
+            if r.is_negative() { (q - T::one(), r + b) } else { (q, r) }
+        }
+
+        if self.denom == other.denom { 
+            return self.numer.cmp(&other.numer)
+        }
+
+        let (q1, r1) = div_mod_floor(&self.numer, &self.denom);
+        let (q2, r2) = div_mod_floor(&other.numer, &other.denom);
+
+        q1.cmp(&q2).then_with(|| 
+            match (r1.is_zero(), r2.is_zero()) { 
+                (true,  true)  => Equal,
+                (true,  false) => Less,
+                (false, true)  => Greater,
+                (false, false) => { 
+                    let l = Ratio::new_raw(self.denom.clone(), r1);
+                    let r = Ratio::new_raw(other.denom.clone(), r2);
+                    l.cmp(&r).reverse()
+                }
+            }
+        )
     }
 }
 
